@@ -158,11 +158,12 @@ def fs_enum(p):
     d = tempfile.mkdtemp(prefix='c18-', dir=BASE)
     out = []
     try:
-        def variants(op, s, wsizes):
+        def variants(op, s, wsizes, ops_now):
             if op[0] != 'W':
                 return [None]
-            if partial_specs == 'all':
-                return [None] + list(range(wsizes[s]))
+            if partial_specs == 'all':     # every byte prefix of the first file written, every 7th of later ones
+                first = not any(o[0] == 'W' for o in ops_now[:s])
+                return [None] + list(range(0, wsizes[s], 1 if first else 7))
             return [None] + list(partial_specs)
 
         def explore(snap, load, hist, segs, level):
@@ -184,7 +185,7 @@ def fs_enum(p):
             if level >= 1 and window is not None:
                 idxs = [s for s in idxs if s < window]
             for s in idxs:
-                for pv in variants(ops[s], s, wsizes):
+                for pv in variants(ops[s], s, wsizes, ops):
                     restore(d, snap)
                     ops_c, outcome_c, _ = run_segment(d, fmt, opts, load, s, pv)
                     st_c, _, extra_c = disk_state(d, fmt, dummy_ckpt, PARTIALS)
